@@ -56,6 +56,14 @@ CLAIMED = {
              "boolean and the CONSTRUCT graph are compared with a reference evaluator written from SPARQL 1.1 section 18. Three recorded "
              "scope deviations of rdflib's top-down evaluation are known findings keyed by a syntactic class of the query.",
         ref="DESIGN.md section 3 C04"),
+    "C10": dict(
+        technique="symbolic execution of rdflib's SPARQL Update evaluator (CrossHair + z3) against a dataset transformer written from the Update spec",
+        text="Bounded symbolic model checking of evalUpdate and the per-operation evaluators: ~90 generated request templates (INSERT/DELETE "
+             "DATA, DELETE WHERE, DELETE/INSERT/WHERE with overlapping delete/insert sets, unbound and illegal template terms, blank "
+             "nodes, WITH, USING, GRAPH templates, CLEAR/DROP, ADD/MOVE/COPY over every src/dst incl. missing graphs and src=dst, "
+             "multi-operation requests) applied through Graph, Dataset and ConjunctiveGraph with the default-graph-union switch off/on, "
+             "over n=2 (thorough 3) symbolic triples placed in default/g1/g2 by shape; every graph compared with the reference afterwards.",
+        ref="DESIGN.md section 3 C10"),
 }
 
 NA = {
@@ -65,7 +73,6 @@ NA = {
     "C07": "check not built yet in this commit (planned: engines K + R, n3 text forms only)",
     "C08": "check not built yet in this commit (planned: engine S)",
     "C09": "check not built yet in this commit (planned: engines K + R)",
-    "C10": "check not built yet in this commit (planned: engine S)",
     "C12": "every parser keys its blank-node label map on text extracted by regex/SAX/JSON; a symbolic label is realised by that extraction (probe: no verdict in 300 s), what remains is a boolean 'same label or not'",
     "C13": "check not built yet in this commit (planned: engine S)",
     "C14": "canonicalisation hashes n3() strings with SHA-256 (C code) before its first structural branch, realising every symbolic input; the interesting inputs are boolean structures",
